@@ -230,6 +230,13 @@ theorem open_pipe_ends_exact (streams : Nat) (f : Fresh) (t : FdTable) (hf : f.O
   exact openFds_ends streams f t hf ht
 
 open Kernel in
+/-- when vfork fails, `open()` closes every pipe end it created: the descriptor table is what it was
+    (the repaired `goto error`; the unrepaired code left up to six descriptors open) -/
+theorem open_failure_restores_table (streams : Nat) (f : Fresh) (t : FdTable) (hf : f.Ok t) :
+    ∀ x, openFdsFailed streams f t x = t x :=
+  openFdsFailed_restores streams f t hf
+
+open Kernel in
 /-- delivery over the abstract pipe model: from the initial state (payload `P` to write, child data `O`
     for stdout and `E` for stderr, exit code `c`, pipe capacity `cap >= 1`) every reachable state `s`, whatever
     the scheduler and the sizes of partial transfers were,
